@@ -188,9 +188,9 @@ var c11Methods = []string{"GET", "POST", "HEAD", "PUT", "BREW"}
 
 func c11Paths(thorough bool) []string {
 	if thorough {
-		return pathsOver([]string{"g", "a", "v"}, 3, []string{"/", "/g/g/g/a", "/g/v/g/a", "/g/g/g/v", "/g/g/g/g/a", "/g/g/g/g/v", "/g-x", "/g/-x", "/v-x", "/g.a", "/g/.a", "/ga", "/va", "/g-x/a", "/g/-x/a", "/g.v/a", "/ga/a", "/g/a/a"})
+		return pathsOver([]string{"g", "a", "v"}, 3, []string{"/", "/g/g/g/a", "/g/v/g/a", "/g/g/g/v", "/g/g/g/g/a", "/g/g/g/g/v", "/g-x", "/g/-x", "/v-x", "/g.a", "/g/.a", "/ga", "/va", "/g-x/a", "/g/-x/a", "/g.v/a", "/ga/a", "/g/a/a", "/o", "/o/t", "/o/", "/o/t/", "/g/o", "/g/o/t", "/o/v"})
 	}
-	return append(pathsOver([]string{"g", "a", "v"}, 2, nil), "/g/g/a", "/g/v/a", "/v/g/a", "/g/g/v", "/v/v/v", "/", "/g/g/g/a", "/g/g/g/v", "/g/g/g/g/a", "/g/g/g/g/v", "/g-x", "/g/-x", "/v-x", "/g.a", "/g/.a", "/ga", "/va", "/g-x/a", "/g/-x/a", "/g.v/a", "/ga/a", "/g/a/a")
+	return append(pathsOver([]string{"g", "a", "v"}, 2, nil), "/g/g/a", "/g/v/a", "/v/g/a", "/g/g/v", "/v/v/v", "/", "/g/g/g/a", "/g/g/g/v", "/g/g/g/g/a", "/g/g/g/g/v", "/g-x", "/g/-x", "/v-x", "/g.a", "/g/.a", "/ga", "/va", "/g-x/a", "/g/-x/a", "/g.v/a", "/ga/a", "/g/a/a", "/o", "/o/t", "/o/", "/o/t/", "/g/o", "/g/o/t", "/o/v")
 }
 
 // c11Judge executes one program both ways and compares. kind is the finding key.
@@ -454,6 +454,24 @@ func c11Programs(thorough bool) [][]c11Node {
 				progs = append(progs,
 					[]c11Node{{Kind: "group", Path: gp, NH: 1, Children: []c11Node{{Kind: lf, Path: frag, NH: 1}}}},
 					[]c11Node{{Kind: "group", Path: gp, NH: 0, Children: []c11Node{{Kind: "group", Path: frag, NH: 1, Children: []c11Node{{Kind: lf, Path: "/a", NH: 1}}}}}})
+			}
+		}
+	}
+	// a route with an optional last segment and the literal path its long form covers, under every pair of
+	// registration kinds (each method's tree has its own earlier/later order), flat and inside a group
+	{
+		var ol []c11Node
+		for _, k := range []string{"get", "post", "any", "routes-comma", "combo"} {
+			for _, pth := range []string{"/o/?t", "/o/t", "/o"} {
+				ol = append(ol, c11Node{Kind: k, Path: pth, NH: 1})
+			}
+		}
+		for _, a := range ol {
+			for _, b := range ol {
+				if a.Path == b.Path {
+					continue
+				}
+				progs = append(progs, []c11Node{a, b}, []c11Node{{Kind: "group", Path: "/g", NH: 1, Children: []c11Node{a, b}}})
 			}
 		}
 	}
